@@ -18,6 +18,7 @@ import (
 	"bufio"
 	"io"
 	"os"
+	"strings"
 
 	"github.com/alibaba/sentinel-golang/core/base"
 	"github.com/alibaba/sentinel-golang/logging"
@@ -175,18 +176,13 @@ func (r *defaultMetricLogReader) readMetricsInOneFileByEndTime(filename string, 
 }
 
 func readLine(bufReader *bufio.Reader) (string, error) {
-	buf := make([]byte, 0, 64)
-	for {
-		line, ne, err := bufReader.ReadLine()
-		if err != nil {
-			return "", err
-		}
-		buf = append(buf, line...)
-		if !ne {
-			return string(buf), err
-		}
-		// buffer size < line size, so we need to read until the `ne` flag is false.
+	line, err := bufReader.ReadString('\n')
+	if err != nil {
+		// no line terminator: the fragment is a line still being written, or one cut by a crash. It is not a
+		// record (parsed as one, a cut inside a field would yield an item that was never written).
+		return "", err
 	}
+	return strings.TrimRight(line, "\r\n"), nil
 }
 
 func getLatestSecond(items []*base.MetricItem) uint64 {
